@@ -65,9 +65,9 @@ func Glue(m *progen.Module, r progen.Rendering, style string) (string, map[strin
 		imports[path] = alias
 		return alias
 	}
-	optLitFor := func(p *progen.Pkg, iface string) string {
+	optLitFor := func(data map[string]any) string {
 		opts := map[string]string{}
-		for k, v := range r.EffectiveData(p, iface) {
+		for k, v := range data {
 			opts[k] = fmt.Sprint(v)
 		}
 		var optKeys []string
@@ -122,12 +122,18 @@ func Glue(m *progen.Module, r progen.Rendering, style string) (string, map[strin
 					}
 					inst = "[" + strings.Join(parts, ", ") + "]"
 				}
-				newExpr := fmt.Sprintf("&%s.%s%s{}", mocksAlias, mockName(it.Name), inst)
-				if style == "testify" {
-					newExpr = fmt.Sprintf("%s.New%s%s(t)", mocksAlias, mockName(it.Name), inst)
+				for _, mt := range r.MockTargets(p, it.Name) {
+					newExpr := fmt.Sprintf("&%s.%s%s{}", mocksAlias, mt.StructName, inst)
+					if style == "testify" {
+						newExpr = fmt.Sprintf("%s.New%s%s(t)", mocksAlias, mt.StructName, inst)
+					}
+					label := p.Name + "." + it.Name + inst
+					if mt.StructName != mockName(it.Name) {
+						label += " as " + mt.StructName
+					}
+					fmt.Fprintf(&tg, "\t\t{Name: %q, Style: %q, Opts: %s,\n\t\t\tNew: func(t *RecT) any { return %s },\n\t\t\tIface: reflect.TypeOf((*%s.%s%s)(nil)).Elem()},\n",
+						label, style, optLitFor(mt.Data), newExpr, srcAlias, it.Name, inst)
 				}
-				fmt.Fprintf(&tg, "\t\t{Name: %q, Style: %q, Opts: %s,\n\t\t\tNew: func(t *RecT) any { return %s },\n\t\t\tIface: reflect.TypeOf((*%s.%s%s)(nil)).Elem()},\n",
-					p.Name+"."+it.Name+inst, style, optLitFor(p, it.Name), newExpr, srcAlias, it.Name, inst)
 			}
 		}
 	}
